@@ -355,3 +355,25 @@ func init() {
 		return nil
 	})
 }
+
+func init() {
+	// maps.clone (linked to the runtime): a shallow copy of the map
+	reg("maps.clone", func(m *Machine, fr *frame, a []Value) Value {
+		it, ok := a[0].(Iface)
+		if !ok {
+			panic(unsupported("maps.clone: argument"))
+		}
+		mp, _ := it.V.(*Map)
+		if mp == nil {
+			return it
+		}
+		c := &Map{KT: mp.KT, Keys: append([]Value(nil), mp.Keys...), Vals: append([]Value(nil), mp.Vals...)}
+		if mp.fast != nil {
+			c.fast = map[string]int{}
+			for k, i := range mp.fast {
+				c.fast[k] = i
+			}
+		}
+		return Iface{T: it.T, V: c}
+	})
+}
